@@ -53,7 +53,7 @@ ASSUMPTIONS = [
     "the XACML category/datatype table is taken as published in ResourceAuthZAttributes.ATTRIBUTE_TYPES_AND_"
     "CATEGORIES at the pinned revision (copied below)",
 ]
-BUDGET = {"quick": 240, "thorough": 12000}
+BUDGET = {"quick": 240, "thorough": 2500}
 MIN_LABEL_FRACTION = {"multi-site": 0.3, "mirror-mixed-site": 0.05, "mirror-out": 0.2, "mirror-in": 0.15,
                       "ext": 0.1, "facility": 0.2, "switch": 0.12, "orders-distinct>=2": 0.6}
 
